@@ -13,7 +13,8 @@
 (*                                                                         *)
 (* An xpath X of the class the property names: steps of axis child / desc   *)
 (* (`/n`, `//n`) with a name or `*` test, and a predicate on the final step *)
-(* only: none | [c='v'] | [.='v'] | [@k='v'] | [c].                         *)
+(* only: none | [c='v'] | [.='v'] | [@k='v'] | [c] | [not(c)]; v may be the  *)
+(* empty string, which an element without any content satisfies.            *)
 (*                                                                         *)
 (* Impl: the readers' state machine -- the partial tree (set of present     *)
 (* nodes), the candidate `stream`, candidate marking by matching the path   *)
@@ -62,6 +63,7 @@ PredOK(D, P, c, X) ==
     [] X.pk = "self="  -> StrValF(D, P, c) = X.pv
     [] X.pk = "attr="  -> D.at[c] = X.pv /\ X.pv # ""
     [] X.pk = "child"  -> \E k \in P : D.par[k] = c /\ NameOK(D, k, X.pn)
+    [] X.pk = "nochild" -> ~\E k \in P : D.par[k] = c /\ NameOK(D, k, X.pn)
 
 FullSel(D, P, X) == {c \in PathSel(D, P, X) : PredOK(D, P, c, X)}
 
